@@ -289,6 +289,13 @@ impl DBInner {
         Ok(data.clone())
     }
 
+    /// Whether meta page `id` (0 or 1) holds valid meta data, in the current or the old format.
+    pub(crate) fn meta_page_valid(&self, id: u64) -> Result<bool> {
+        let data = self.data.lock()?;
+        let page = Page::from_buf(&data, id, self.pagesize);
+        Ok(page.page_type == Page::TYPE_META && (page.meta().valid() || page.old_meta().valid()))
+    }
+
     pub(crate) fn meta(&self) -> Result<Meta> {
         let data = self.data.lock()?;
 
